@@ -323,6 +323,79 @@ func vChooseCorpusCase(r *vx.Run, docs []vDoc, families []string) vCase {
 			t.apply(e.kind, e.pos, i)
 		}
 		return vCase{fmt.Sprintf("clusters:%s:%d edits:start%d", d.Key, k, x), t.bytes(), d.Key}
+	case "hyphenwall":
+		// a text of 70..260 KB in which EVERY line ends in a word that is continued on the next line
+		// (wherever a large input may be cut into pieces, the cut follows a hyphenated line break),
+		// then the document
+		nd := len(docs)
+		if nd > 3 {
+			nd = 3
+		}
+		d := docs[r.Choose(nd, "doc")]
+		kb := []int{70, 130, 260}[r.Choose(3, "size")]
+		width := []int{3, 7}[r.Choose(2, "words per line")]
+		var sb strings.Builder
+		for i := 0; sb.Len() < kb*1024; i++ {
+			for w := 0; w < width; w++ {
+				sb.WriteString(vOOV(i*width + w))
+				sb.WriteByte(' ')
+			}
+			sb.WriteString("zqhy-\nphen ")
+		}
+		sb.WriteString("\n")
+		sb.Write(d.Bytes)
+		return vCase{fmt.Sprintf("hyphenwall:%s:%d KB of lines of %d words ending in a split word", d.Key, kb, width), []byte(sb.String()), d.Key}
+	case "specialwords":
+		// the words the scorer has rules of its own for in GNU texts (lesser / library / general /
+		// affero / gnu), one occurrence at a time: replaced by each of the others, deleted, or
+		// preceded by one of them
+		d := docs[r.Choose(len(docs), "doc")]
+		special := []string{"lesser", "library", "general", "affero", "gnu"}
+		t := vParse(d.Bytes)
+		type occ struct{ k int }
+		var occs []int
+		k := 0
+		for _, l := range t {
+			for _, w := range l {
+				lw := strings.ToLower(strings.Trim(w, ".,;:()\"'"))
+				for _, sp := range special {
+					if lw == sp {
+						occs = append(occs, k)
+					}
+				}
+				k++
+			}
+		}
+		if len(occs) == 0 {
+			return vCase{"exact:" + d.Key, d.Bytes, d.Key}
+		}
+		if len(occs) > 12 {
+			occs = occs[:12]
+		}
+		pos := occs[r.Choose(len(occs), "occurrence")]
+		op := r.Choose(2*len(special)+1, "replacement")
+		i, j := t.locate(pos)
+		old := t[i][j]
+		desc := ""
+		switch {
+		case op == 2*len(special):
+			t[i] = append(t[i][:j:j], t[i][j+1:]...)
+			desc = "deleted"
+		case op < len(special):
+			nw := special[op]
+			if old != "" && old[0] >= 'A' && old[0] <= 'Z' {
+				nw = strings.ToUpper(nw[:1]) + nw[1:]
+			}
+			t[i][j] = nw
+			desc = "replaced by " + nw
+		default:
+			nw := special[op-len(special)]
+			l := append([]string(nil), t[i][:j]...)
+			l = append(l, nw)
+			t[i] = append(l, t[i][j:]...)
+			desc = "preceded by " + nw
+		}
+		return vCase{fmt.Sprintf("specialwords:%s:word %d (%s) %s", d.Key, pos, old, desc), t.bytes(), d.Key}
 	case "edit3":
 		// three edits of any kinds at any three of 14 evenly spread positions
 		d := docs[r.Choose(len(docs), "doc")]
